@@ -108,6 +108,11 @@ static bool type_dependent(const std::string& key) {
     return false;
 }
 // x<hex> runs may come back zero-padded (option formats that only carry a length in 4/8-octet units)
+static std::string strip_len(const std::string& v) {   // drop "len=<n>," from an option list rendering
+    std::string o; size_t i = 0;
+    while (i < v.size()) { if (v.compare(i, 4, "len=") == 0) { size_t j = i + 4; while (j < v.size() && isdigit((unsigned char)v[j])) ++j; if (j < v.size() && v[j] == ',') ++j; i = j; } else o += v[i++]; }
+    return o;
+}
 static bool equal_modulo_padding(const std::string& want, const std::string& got) {
     size_t i = 0, j = 0;
     while (i < want.size() && j < got.size()) {
@@ -154,6 +159,8 @@ static std::string wire_check(S& s) {
         if (always_derived(kv.first) || protocol_tag(kv.first) || size_key(kv.first) || type_dependent(kv.first) || kv.first == "BootP.vend" || kv.first == "Dot1Q.append_padding") continue;
         if (g_cls == "ICMPv6" && !g_applicable.count("ICMPv6.options") && b[kv.first].find("option_not_found") != std::string::npos) continue;   // this message type has no option area
         if (kv.first == "ICMPv6.multicast_address_records" && strip_aux(kv.second) == strip_aux(b[kv.first])) continue;   // aux data is counted in 32-bit words
+        // IPv6 extension headers are padded with zeros to whole 8-octet units on the wire: the parsed data is the built data plus that padding
+        if (kv.first == "IPv6.headers" && equal_modulo_padding(strip_len(kv.second), strip_len(b[kv.first]))) continue;
         if (b[kv.first] != kv.second && !equal_modulo_padding(kv.second, b[kv.first]))
             return "wire:field-differs:" + kv.first + "|built " + kv.second.substr(0, 220) + " parsed " + b[kv.first].substr(0, 220) + " wire=" + hex(y).substr(0, 200);
     }
@@ -300,6 +307,18 @@ static std::vector<ClassCfg> classes() {
     CLS(Dot11ReAssocRequest) CLS(Dot11ReAssocResponse) CLS(Dot11RTS) CLS(Dot11PSPoll) CLS(Dot11CFEnd) CLS(Dot11EndCFAck) CLS(Dot11Ack) CLS(Dot11BlockAck) CLS(Dot11BlockAckRequest)
     // the option-carrying classes again, starting from an object that already holds four raw options
     { size_t n = v.size(); for (size_t i = 0; i < n; ++i) if (v[i].has_raw) { ClassCfg c = v[i]; c.preload = true; v.push_back(c); } }
+    {   // IPv6 extension headers: add_header / search_header (there is no removal); data sizes 6 mod 8 fill the 8-octet unit exactly, 7 mod 8
+        // is the one residue where the padded size and the data size give different unit counts
+        RawOps r;
+        r.applies = [](PDU& p) { return dynamic_cast<IPv6*>(&p) != 0; };
+        r.count = [](PDU& p) { return (size_t)static_cast<IPv6&>(p).headers().size(); };
+        r.add = [](PDU& p, int ts, int len) { static const int ty[3] = {IPv6::HOP_BY_HOP, IPv6::DESTINATION_OPTIONS, IPv6::ROUTING};
+                                               static_cast<IPv6&>(p).add_header(IPv6::ext_header((uint8_t)ty[ts % 3], len, g_data.data())); };
+        r.remove_at = [](PDU&, size_t) { return false; };
+        r.search_at_type = [](PDU& p, int ts) { static const int ty[3] = {IPv6::HOP_BY_HOP, IPv6::DESTINATION_OPTIONS, IPv6::ROUTING};
+                                                return static_cast<IPv6&>(p).search_header((IPv6::ExtensionHeader)ty[ts % 3]) != 0; };
+        v.push_back(ClassCfg{"IPv6", &make_q<IPv6>, &parse_q<IPv6>, r, true, {}, {}, false});
+    }
     return v;
 }
 
@@ -319,8 +338,8 @@ static void run_class(const ClassCfg& c, int variant, int maxdepth, const std::s
     }
     Explorer<S, Op> ex;
     for (size_t i = 0; i < g_setters.size(); ++i) for (int k = 0; k < g_setters[i].ns; ++k) ex.alphabet.push_back(Op{0, (int)i, k});
-    g_rawlens = (c.name == "ICMPv6") ? std::vector<int>{6, 14, 22} : std::vector<int>{0, 3, 9};   // ND options are whole multiples of 8 octets
-    if (g_raw) { for (int t = 0; t < 3; ++t) for (int len : g_rawlens) ex.alphabet.push_back(Op{1, t, len}); ex.alphabet.push_back(Op{2, 0, 0}); ex.alphabet.push_back(Op{2, 1, 0}); }
+    g_rawlens = (c.name == "ICMPv6") ? std::vector<int>{6, 14, 22} : (c.name == "IPv6") ? std::vector<int>{6, 7, 15, 22} : std::vector<int>{0, 3, 9};   // ND options are whole multiples of 8 octets
+    if (g_raw) { for (int t = 0; t < 3; ++t) for (int len : g_rawlens) ex.alphabet.push_back(Op{1, t, len}); if (c.name != "IPv6") { ex.alphabet.push_back(Op{2, 0, 0}); ex.alphabet.push_back(Op{2, 1, 0}); } }
     ex.context = "class=" + c.name + " variant=" + std::to_string(variant) + " depth=" + std::to_string(maxdepth);
     ex.op_str = [](const Op& o) { return o.kind == 0 ? g_setters[o.a].name + "#" + std::to_string(o.b) : o.kind == 1 ? "add" + std::to_string(o.a) + "." + std::to_string(o.b) : "rem" + std::to_string(o.a); };
     ex.init = []() { S s; s.o.reset(g_make()); if (g_preload && g_raw) { g_raw->add(*s.o, 0, g_rawlens[1]); g_raw->add(*s.o, 1, g_rawlens[2]); g_raw->add(*s.o, 2, g_rawlens[0]); g_raw->add(*s.o, 0, g_rawlens[2]); } return s; };
